@@ -42,6 +42,7 @@ package dragonboat
 // its calls is atomic w.r.t. crash points; its inner crash atomicity is C10.
 
 import (
+	"errors"
 	"bytes"
 	"fmt"
 	"io"
@@ -91,6 +92,21 @@ type vfCountFS struct {
 	open    map[*vfFile]struct{}
 	// layout flags sampled at the crash instant
 	bothTmp bool
+	// errAt > 0: mutating operation errAt is not performed and returns an I/O error
+	// (write, sync, create, rename, link, mkdir of the snapshot layer)
+	errAt    int
+	errFired bool
+}
+
+var errVFInjected = errors.New("vf: injected I/O error")
+
+// inject reports whether the operation just accounted by tick has to fail.
+func (c *vfCountFS) inject() bool {
+	if c.errAt > 0 && c.ops == c.errAt && !c.errFired {
+		c.errFired = true
+		return true
+	}
+	return false
 }
 
 func newVFCountFS(inner *gvfs.MemFS) *vfCountFS {
@@ -171,10 +187,16 @@ func (f *vfFile) ReadAt(p []byte, o int64) (int, error) {
 }
 func (f *vfFile) Write(p []byte) (int, error) {
 	f.fs.tick("write", f.path)
+	if f.fs.inject() {
+		return 0, errVFInjected
+	}
 	return f.inner.Write(p)
 }
 func (f *vfFile) WriteAt(p []byte, o int64) (int, error) {
 	f.fs.tick("write", f.path)
+	if f.fs.inject() {
+		return 0, errVFInjected
+	}
 	return f.inner.WriteAt(p, o)
 }
 func (f *vfFile) Stat() (os.FileInfo, error) {
@@ -187,6 +209,9 @@ func (f *vfFile) Stat() (os.FileInfo, error) {
 }
 func (f *vfFile) Sync() error {
 	f.fs.tick("sync", f.path)
+	if f.fs.inject() {
+		return errVFInjected
+	}
 	return f.inner.Sync()
 }
 
@@ -194,11 +219,17 @@ var _ gvfs.FS = (*vfCountFS)(nil)
 
 func (c *vfCountFS) Create(name string) (gvfs.File, error) {
 	c.tick("create", name)
+	if c.inject() {
+		return nil, errVFInjected
+	}
 	f, err := c.inner.Create(name)
 	return c.wrap(f, err, name)
 }
 func (c *vfCountFS) Link(o, n string) error {
 	c.tick("link", n)
+	if c.inject() {
+		return errVFInjected
+	}
 	return c.inner.Link(o, n)
 }
 func (c *vfCountFS) Open(name string, opts ...gvfs.OpenOption) (gvfs.File, error) {
@@ -226,6 +257,9 @@ func (c *vfCountFS) RemoveAll(name string) error {
 }
 func (c *vfCountFS) Rename(o, n string) error {
 	c.tick("rename", n)
+	if c.inject() {
+		return errVFInjected
+	}
 	return c.inner.Rename(o, n)
 }
 func (c *vfCountFS) ReuseForWrite(o, n string) (gvfs.File, error) {
@@ -235,6 +269,9 @@ func (c *vfCountFS) ReuseForWrite(o, n string) (gvfs.File, error) {
 }
 func (c *vfCountFS) MkdirAll(dir string, perm os.FileMode) error {
 	c.tick("mkdir", dir)
+	if c.inject() {
+		return errVFInjected
+	}
 	return c.inner.MkdirAll(dir, perm)
 }
 func (c *vfCountFS) Lock(name string) (io.Closer, error) {
@@ -1234,6 +1271,28 @@ func vfRunTo(onDisk bool, ops []vfSOp, k int) (r *vfReplica, crashed bool, other
 	return r, false, nil
 }
 
+// vfRunToErr executes the sequence with an I/O error injected at mutating operation
+// k (the operation is not performed). surfaced: the error came out of the call as an
+// error or a panic (fail stop: the process dies there); otherwise the code under
+// test went on as if the operation had succeeded and the whole sequence was run.
+func vfRunToErr(onDisk bool, ops []vfSOp, k int) (r *vfReplica, surfaced bool, how string) {
+	r = newVFReplica(onDisk)
+	r.fs.errAt = k
+	defer func() {
+		if x := recover(); x != nil {
+			surfaced = true
+			how = fmt.Sprintf("%v", x)
+			if len(how) > 300 {
+				how = how[:300]
+			}
+		}
+	}()
+	for _, op := range ops {
+		r.exec(op)
+	}
+	return r, false, ""
+}
+
 func vfPhaseOf(log []vfOp, k int) (label string, nontrivial bool, classes []string) {
 	if k > len(log) {
 		return "after-last-op", false, []string{"phase:after-last-op"}
@@ -1317,7 +1376,8 @@ func TestVF_C16_SnapshotDirCrash(t *testing.T) {
 	logger.GetLogger("config").SetLevel(logger.CRITICAL)
 	st := vfhelp.NewStats("TestVF_C16_SnapshotDirCrash",
 		"one case = (generated sequence of save/commit/abort/receive/install/shrink/ref/unref/restart on the real snapshotter+SSEnv+transport.Chunk+Pebble log store over one StrictMem, crash point k): power fails before mutating operation k, unsynced state is dropped, the NodeHost start-up path runs and the C16 oracle is checked, then the replica continues. "+
-			"non-trivial = the cut falls between the creation of a flag file and the log-store record, or inside shrink/replace, or while a .generating and a .receiving directory coexist")
+			"non-trivial = the cut falls between the creation of a flag file and the log-store record, or inside shrink/replace, or while a .generating and a .receiving directory coexist. "+
+			"I/O error variant (cases '!k'): operation k (write/sync/create/rename/link/mkdir of the snapshot layer) fails instead of the power; the error either surfaces (fail stop = crash at that point) or the code goes on; then power cut + the same oracle; non-trivial there = the failed operation is a sync or the error did not surface")
 	defer st.Flush()
 	exhaustive := vfhelp.Thorough()
 	st.Set("exhaustive", exhaustive)
@@ -1325,7 +1385,7 @@ func TestVF_C16_SnapshotDirCrash(t *testing.T) {
 	if exhaustive {
 		maxOps = 10
 	}
-	totalPoints, totalOps, totalDouble := 0, 0, 0
+	totalPoints, totalOps, totalDouble, totalErr := 0, 0, 0, 0
 	rapid.Check(t, func(t *rapid.T) {
 		onDisk := rapid.Bool().Draw(t, "onDisk")
 		nops := 2 + vfhelp.PickN(t, "nops", maxOps-1)
@@ -1502,7 +1562,58 @@ func TestVF_C16_SnapshotDirCrash(t *testing.T) {
 				totalDouble++
 			}
 		}
+		// I/O error variant: operation k of the snapshot layer fails instead of the power.
+		// Either the error surfaces (error / panic: the process stops there, which is a
+		// crash at that point) or the code goes on; in both cases the power is cut
+		// afterwards and the start-up path must find what C16 promises - in particular a
+		// snapshot whose save was reported successful although one of its writes or syncs
+		// failed must not be the recorded one.
+		var errPoints []int
+		for k := 1; k <= T; k++ {
+			switch oplog[k-1].kind {
+			case "write", "sync", "create", "rename", "link", "mkdir":
+				errPoints = append(errPoints, k)
+			}
+		}
+		if !exhaustive && len(errPoints) > 12 {
+			var pick []int
+			for i := 0; i < 12; i++ {
+				pick = append(pick, errPoints[vfhelp.PickN(t, "errpoint", len(errPoints))])
+			}
+			errPoints = pick
+		}
+		for _, k := range errPoints {
+			rr, surfaced, how := vfRunToErr(onDisk, ops, k)
+			if !rr.fs.errFired {
+				vfhelp.Fail(t, "c16-replay-diverged", "sequence %s: I/O error point %d/%d did not fire", seqStr, k, T)
+			}
+			acked := rr.acked
+			var redo uint64
+			if rr.inSave != nil {
+				redo = rr.inSave.ss.Index
+			}
+			rep := rr.powerCut()
+			classes := []string{"ioerr:" + oplog[k-1].kind}
+			if surfaced {
+				classes = append(classes, "ioerr:surfaced")
+			} else {
+				classes = append(classes, "ioerr:not-surfaced")
+			}
+			where := fmt.Sprintf("I/O error injected at operation %d of %d (%s), surfaced=%v (%s), power cut afterwards", k, T, vfDescribe(oplog, k), surfaced, how)
+			fail := rr.startup(acked, 0)
+			if fail == nil {
+				fail = rr.afterlife(redo)
+			}
+			if fail != nil {
+				vfhelp.Fail(t, "c16-ioerr-"+strings.TrimPrefix(fail.sig, "c16-"), "sequence [%s], %s; layout at the cut %v; acked %d\n%s",
+					seqStr, where, rep.layoutAtCut, acked, fail.msg)
+			}
+			rr.powerCut()
+			totalErr++
+			st.Case([]byte(fmt.Sprintf("%s !%d", seqStr, k)), !surfaced || oplog[k-1].kind == "sync", classes...)
+		}
 	})
+	st.Set("io_error_points_executed", totalErr)
 	st.Set("crash_points_executed", totalPoints)
 	st.Set("second_crash_points_executed", totalDouble)
 	st.Set("fs_operations_in_sequences", totalOps)
